@@ -14,6 +14,21 @@ def plant_clash(rng, recs):
     kinds = []
     if len(recs) < 2:
         recs.append(rec("zz", "zz:"))
+    if rng.random() < 0.2:
+        # a whole record repeated: identical, with permuted synonyms, or identical up to ",".join of the synonyms
+        i = rng.randrange(len(recs))
+        dup = copy.deepcopy(recs[i])
+        how = rng.choice(["identical", "permuted", "joined"])
+        if how == "permuted":
+            dup["ps"] = list(reversed(dup["ps"]))
+            dup["us"] = list(reversed(dup["us"]))
+        elif how == "joined":
+            if len(dup["ps"]) >= 2:
+                dup["ps"] = [sorted(dup["ps"])[0] + [44] + sorted(dup["ps"])[1]] + sorted(dup["ps"])[2:]
+            elif not dup["ps"]:
+                dup["ps"] = [[]]
+        recs.insert(rng.randrange(len(recs) + 1), dup)
+        return recs, [f"clash:whole-record:{how}"]
     for _ in range(rng.choice([1, 1, 2])):
         i, j = rng.sample(range(len(recs)), 2)
         side = rng.choice(["p", "u"])
@@ -95,9 +110,26 @@ class C04(ProgramProperty):
         steps.append({"op": "load_reverse", "dst": 3, "data": rev})
         ctx = [[k, {"s": v}] if rng.random() < 0.7 else [k, {"pd": v}] for k, v in pm]
         steps.append({"op": "load_jsonld", "dst": 4, "data": ctx})
+        # history stream: a converter acquires a synonym by merge, then its records are reused with a record
+        # that claims the acquired synonym (the strict check must look at the records as they are now)
+        if not kinds and len(recs) >= 2 and rng.random() < 0.5:
+            tgt = rng.choice(recs)
+            side = rng.choice(["p", "u"])
+            newsyn = cps("acq" + gen.word(rng, 1, 2, syms=["a", "b", "1"]))
+            if side == "p":
+                steps.append({"op": "add_prefix", "c": 0, "p": newsyn, "u": tgt["u"], "merge": True})
+                extra = rec("other", "http://other.example/", [uncps(newsyn)])
+            else:
+                steps.append({"op": "add_prefix", "c": 0, "p": tgt["p"], "u": newsyn, "merge": True})
+                extra = rec("other", "http://other.example/", [], [uncps(newsyn)])
+            if "other" not in gen.all_prefixes(recs):
+                steps += [q(0, "records"), {"op": "fresh", "dst": 5, "src": 0, "extra": [extra]},
+                          {"op": "fresh", "dst": 6, "src": 0, "extra": []}, q(6, "records")]
+                kinds = kinds + ["history:merge-then-reuse-records"]
         nontrivial = any("synonym" in k for k in kinds) or len({k.split(":")[1] for k in kinds if k.startswith("clash")}) == 2
         return {"steps": steps, "nontrivial": nontrivial or (not kinds and len(recs) >= 4),
-                "tags": kinds or ["valid", f"records={len(recs)}"]}
+                "tags": (kinds if any(k.startswith("clash") or k == "self-synonym" for k in kinds)
+                         else kinds + ["valid", f"records={len(recs)}"])}
 
     def tags(self, case, impl):
         out = list(case["tags"])
